@@ -19,7 +19,7 @@ const entPkg = "telegram/message/entity"
 func init() {
 	register("C35", []string{entPkg}, func(c *engine.Ctx) {
 		c.Explain("C35 (structural clauses only): (R1, accounting invariant) b.utf16length is the UTF-16 length of b.message: every function that writes text into b.message adds, on every path, the UTF-16 length of exactly the argument it wrote (Write: ComputeLengthBytes(s), WriteString: ComputeLength(s), WriteRune: utf16RuneLen(r), WriteByte: 1); nothing else stores the field except Reset, which clears both; nothing outside these functions writes b.message. (R2, unit) utf16RuneLen evaluated on all 5 order classes of a rune against {0x10000, 0x10FFFF} is 2 exactly inside the supplementary planes and 1 otherwise (exhaustive); ComputeLength and ComputeLengthBytes sum utf16RuneLen over every decoded rune of their argument, advancing by the decoded size. (R3, origins) appendMessage passes offset = b.utf16length read before the text is written and length = ComputeLength of the very string it then writes; Token() records UTF16Len(), Token.Apply passes the recorded offset and UTF16Len() − offset; appendEntities hands its own (offset, length) to every formatter. (R4, constructors) every Formatter closure of the package puts its first parameter in Offset and its second in Length. (R5, trim) fixEntities changes lengths only in entities[lastFormatIndex:], to ComputeLength of the right-trimmed last block, only when that block reaches the end of the message, and cuts the message at the same point.")
-		c.NotCover("the numeric statement itself (that the produced ranges equal the pieces for arbitrary Unicode); WriteByte with a non-ASCII byte (counts one unit per byte); external callers of appendEntities via Token with a foreign builder; telegram/message/styling")
+		c.NotCover("the numeric statement itself (that the produced ranges equal the pieces for arbitrary Unicode); WriteByte with a non-ASCII byte (counts one unit per byte) and, in general, chunks that end inside a rune — UTF-16 length is not additive over such chunks (finding F37b under C37.R4); external callers of appendEntities via Token with a foreign builder; telegram/message/styling")
 		c35(c)
 	})
 }
@@ -366,6 +366,43 @@ func c35Trim(c *engine.Ctx, rule string) {
 			})
 			c.Check(okS && okG && okE, rule, "fixEntities/setLength#"+ordinalCall(fx, call), call.Pos(), "a length may be rewritten only for an entity with offset+length beyond the UTF-16 length of the cut text, in a loop over the whole list, to a value derived from that length, and only when the last block reaches the end of the message (loop/value: %v, end-of-message guard: %v, beyond-the-cut guard: %v)", okS, okG, okE)
 		}
+		// an entity that *starts* in the trimmed tail (it formatted only the
+		// whitespace that was cut) cannot be repaired by its length alone: its
+		// offset must be brought back to the end of the text as well
+		n5++
+		var endCall *ssa.Call
+		for _, cl := range engine.CallsTo(fx, false, "telegram/message/entity.ComputeLength") {
+			if cc, _ := cl.(*ssa.Call); cc != nil && cut != nil && engine.Unwrap(cc.Common().Args[0]) == ssa.Value(cut) {
+				endCall = cc
+			}
+		}
+		moved := false
+		for _, call := range engine.CallsTo(fx, false, "telegram/message/entity.setOffset") {
+			a := call.Common().Args
+			idxOK, _ := c39RangeIndex(a[0], fx.Params[2])
+			if !idxOK || engine.Unwrap(a[2]) != ssa.Value(fx.Params[2]) || endCall == nil || !engine.DependsOn(a[1], endCall) {
+				continue
+			}
+			if engine.GuardedBy(call, func(k engine.Cmp) bool {
+				for _, q := range []engine.Cmp{k, k.Swap()} {
+					// end - start < 0   or   start > end
+					if sub, isSub := engine.Unwrap(q.X).(*ssa.BinOp); isSub && sub.Op == token.SUB && engine.CallOf(sub.X) == endCall && q.Op == token.LSS {
+						if z, isK := engine.ConstInt(q.Y); isK && z == 0 {
+							return true
+						}
+					}
+					if engine.CallOf(q.Y) == endCall && q.Op == token.GTR {
+						if g := engine.CallOf(q.X); g != nil && g.Common().IsInvoke() && g.Common().Method.Name() == "GetOffset" {
+							return true
+						}
+					}
+				}
+				return false
+			}) {
+				moved = true
+			}
+		}
+		c.Check(moved, rule, "fixEntities/entity-starting-in-the-tail-is-moved", fx.Pos(), "an entity whose offset lies beyond the cut must get its offset set to the UTF-16 length of the cut text (it would otherwise start outside the text, whatever its length)")
 		// the message is cut at offset + len(trimmed)
 		for _, r := range engine.Returns(fx) {
 			sl, isSl := engine.Unwrap(r.Results[0]).(*ssa.Slice)
